@@ -28,6 +28,8 @@ import ClairModel.Proofs.CvssOsvRaw
 import ClairModel.Proofs.CvssOsvRaw2
 import ClairModel.Proofs.CvssV4Tab
 import ClairModel.Proofs.CvssEnrich
+import ClairModel.Proofs.CvssV4Mono
+import ClairModel.Proofs.CvssV4Steps
 
 -- every variable of a property statement is bound explicitly: a misspelt name is an error, not a new variable
 set_option autoImplicit false
@@ -297,6 +299,29 @@ theorem v4_lookup_keys_exact :
 theorem v4_macrovector_lookup_total (v : Vec) :
     v4KeyOk (v4Macro v) = true ∧ (v4MvScore (v4Macro v)).isSome = true :=
   ⟨v4Macro_keyOk v, v4_lookup_total v⟩
+
+/-- `V4.macrovector()` is monotone in severity, for any two vectors `ParseV4`
+    returns: if every metric the score depends on (AV … SA, E, CR, IR, AR, after
+    the defaults of `getScore`: E Not Defined = Attacked, requirements Not
+    Defined = High) is in `w` at least as severe as in `v`, and a Safety value
+    of MSI / MSA does not go away, then no equivalence class of `w` is at a
+    higher (less severe) level than in `v` -/
+theorem v4_macrovector_levels_monotone {s t : Bytes} {v w : Vec} (hs : parse4 s = some v) (ht : parse4 t = some w)
+    (hsev : ∀ m < 15, sev4 m (v4ScoreByte w m) ≤ sev4 m (v4ScoreByte v m))
+    (hsafe : v4Safety v = true → v4Safety w = true) :
+    ∀ i < 6, (v4Macro w).getD i 0 ≤ (v4Macro v).getD i 0 :=
+  v4Macro_mono v w (valid4_eff_mem (parse4_sound hs)) (valid4_eff_mem (parse4_sound ht)) hsev hsafe
+
+/-- and one level higher in one equivalence class never scores higher: for
+    every row of the lookup table and every class whose next level gives a
+    consistent macrovector, that macrovector's row exists and its score is not
+    above.  (That the INTERPOLATED score of `V4.Score` never drops when a
+    metric gets more severe is not proved; the harness checks it on every
+    sampled vector, and it held on the complete space of 17 006 112 vectors
+    when the oracle was written.) -/
+theorem v4_lookup_single_step_monotone : ∀ e ∈ v4MacrovectorScore, ∀ i < 6, v4KeyOk (bump e.1 i) = true →
+    ∃ s', (bump e.1 i, s') ∈ v4MacrovectorScore ∧ s' ≤ e.2 :=
+  monoTails_spec _ v4_monoTails
 
 /-! ### parsing and printing -/
 
